@@ -1,5 +1,5 @@
 #!/usr/bin/env python3
-"""Runs quick checks against a property-PRESERVING change:  try_benign.py [--rev COMMIT] PATCH [ID ...]   (default: all 19)
+"""Runs quick checks against a property-PRESERVING change:  try_benign.py [--rev COMMIT] PATCH.diff [PATCH2.diff ...] [ID ...]   (default: all 19)
 The patch is applied to a scratch clone of /repo (VERIF_REPO, VERIF_NO_EVIDENCE=1); /repo and the committed evidence are
 not touched. Prints one line per check; exit 0 iff no check raised a VIOLATION or failed (an alarm here is a FALSE alarm
 of the machinery unless the change turns out to break the property after all)."""
@@ -8,7 +8,7 @@ args = sys.argv[1:]
 rev = None
 if '--rev' in args:
     i = args.index('--rev'); rev = args[i + 1]; del args[i:i + 2]
-patch = os.path.abspath(args[0]); ids = args[1:] or ['C%02d' % i for i in range(1, 20)]
+patches = [os.path.abspath(a) for a in args if a.endswith('.diff')]; ids = [a for a in args if not a.endswith('.diff')] or ['C%02d' % i for i in range(1, 20)]
 base = tempfile.mkdtemp(prefix='benign.', dir='/var/tmp')
 clone = os.path.join(base, 'repo')
 bad = 0
@@ -16,9 +16,10 @@ try:
     subprocess.run(['git', 'clone', '-q', '/repo', clone], check=True)
     if rev:
         subprocess.run(['git', '-C', clone, 'checkout', '-q', rev], check=True)
-    ap = subprocess.run(['git', '-C', clone, 'apply', patch], capture_output=True, text=True)
-    if ap.returncode != 0:
-        sys.exit('patch does not apply: ' + ap.stderr[:300])
+    for patch in patches:
+        ap = subprocess.run(['git', '-C', clone, 'apply', patch], capture_output=True, text=True)
+        if ap.returncode != 0:
+            sys.exit('patch does not apply: ' + ap.stderr[:300])
     env = dict(os.environ, VERIF_REPO=clone, VERIF_NO_EVIDENCE='1')
     for pid in ids:
         r = subprocess.run(['./check', pid, '--tier', 'quick'], cwd='/verif', capture_output=True, text=True, env=env)
